@@ -377,7 +377,9 @@ void mmd_outline_add_itmz(DString * out, const char * source, token * current, s
 
 			t_level += scratch->base_header_level - 1;
 
-			if (t_level >= level) {
+			// At the end of the document everything still open is closed, whatever
+			// the (possibly negative) base header level made of the levels
+			if ((current->type == DOC_START_TOKEN) || (t_level >= level)) {
 				// Close out level
 				print_const("</topic>\n");
 
